@@ -98,7 +98,8 @@ static errcode_t reuse_cache(io_channel channel, struct unix_private_data *data,
 	ENSURES(RET != 0 || block == g_bstar || coherent(data))
 	ENSURES(RET != 0 || block != g_bstar || g_disk == g_logical)
 	ENSURES(RET == 0 || coherent(data))
-	ASSIGNS(__CPROVER_object_whole(data), g_disk, g_nwrites);
+	ENSURES(RET == 0 ? g_wfail == OLD(g_wfail) : g_wfail == 1)
+	ASSIGNS(__CPROVER_object_whole(data), g_disk, g_nwrites, g_wfail);
 
 void h_find(void)
 {
